@@ -119,6 +119,20 @@ def hc_params(policy, scope, **kw):
 def run_jobs(ctx, jobs, parallel=4):
     """Run independent TLC jobs concurrently.  job = dict(module=, cfg_text=, label=, and optionally sim=, depth=, seed=,
     workers=, coverage=, timeout=, allow_violation=).  Returns the TlcResults in order; the first Inconclusive is re-raised."""
+    import os
+    from concurrent.futures import ThreadPoolExecutor
+
+    if os.environ.get("VERIF_DEV_SKIP_MC"):
+        # development aid (mutation experiments): the exhaustive runs do not depend on /repo; never set by registered commands
+        kept = [j for j in jobs if not j["label"].startswith("mc ")]
+        ctx.notes.append("DEVELOPMENT RUN: %d exhaustive TLC jobs skipped (VERIF_DEV_SKIP_MC)" % (len(jobs) - len(kept)))
+        dummy = vlib.TlcResult()
+        got = iter(run_jobs_inner(ctx, kept, parallel))
+        return [dummy if j["label"].startswith("mc ") else next(got) for j in jobs]
+    return run_jobs_inner(ctx, jobs, parallel)
+
+
+def run_jobs_inner(ctx, jobs, parallel=4):
     from concurrent.futures import ThreadPoolExecutor
 
     def one(ij):
